@@ -120,11 +120,11 @@ def call(torch, F, env, rep='f64'):
 
 
 def rep_tol(F, e, v, rep):
-    """static descriptions may be computed in float32 (torch.tensor(float(x)) is a float32 tensor): exact where the
-    value is an integer below 2^24 (exactly representable on every path), 2^-20 relative otherwise (DESIGN §4)"""
+    """static descriptions may be computed in float32 (torch.tensor(float(x)) is a float32 tensor): exact where every
+    argument is an integer and the value is an integer below 2^24 (exactly representable on every path), 2^-20 relative otherwise (DESIGN §4)"""
     if rep == 'f64':
         return tol_for(F, e)
-    if v is not None and tol_for(F, e) == 0 and abs(v) < 2 ** 24 and float(v).is_integer():
+    if v is not None and tol_for(F, e) == 0 and abs(v) < 2 ** 24 and float(v).is_integer() and all(Fraction(x).denominator == 1 for x in e.values()):
         return Fraction(0)
     return TOL20
 
@@ -151,7 +151,58 @@ def static_envs(F, quick):
             add(dict(b, ip=Fraction(3)))
         if F.spec in ('ne16_latency', 'diana_latency'):
             add(dict(b, ip=Fraction(4)))
+        if F.spec in MONO_WP | {'diana_latency'}:      # non-integer bit-widths (floats / float32 tensors only)
+            for fb in FRACTIONAL_BITS:
+                add(dict(b, wp=fb))
+                add(dict(b, ip=fb))
     return out
+
+
+def reps_for(e):
+    return REPS if all(Fraction(e[k]).denominator == 1 for k in ('wp', 'ip', 'theta', 'cin', 'cout')) else ('float', 'f32')
+
+
+def lookup_layers(kind):
+    """layers looked up THROUGH each spec (`spec[(type, description)](description)`): every intersection of the
+    constraint families a pattern may be registered for — dense / grouped / depthwise / one-to-one x kernel 1, 3, 5, mixed"""
+    Fr = Fraction
+    base = dict(k0=Fr(3), k1=Fr(3), o2=Fr(6), o3=Fr(5), wp=Fr(8), ip=Fr(8), bias=Fr(1), theta=Fr(1))
+    if kind == 'linear':
+        return [('dense', dict(base, cin=Fr(16), cout=Fr(32), groups=Fr(1), k0=Fr(1), k1=Fr(1), o2=Fr(1), o3=Fr(1))),
+                ('dense-no-bias', dict(base, cin=Fr(5), cout=Fr(3), groups=Fr(1), k0=Fr(1), k1=Fr(1), o2=Fr(1), o3=Fr(1), bias=Fr(0)))]
+    out = []
+    kernels = [(1, 1), (3, 3), (5, 5), (3, 1)] if kind == 'conv2d' else [(1, 1), (3, 1), (5, 1)]
+    shapes = [('dense', 8, 16, 1), ('dense-square', 8, 8, 1), ('depthwise', 8, 8, 8), ('depthwise-wide', 33, 33, 33), ('one-to-one', 1, 1, 1),
+              ('grouped', 8, 16, 2), ('grouped-square', 8, 8, 2)]
+    for tag, cin, cout, g in shapes:
+        for k0, k1 in kernels:
+            e = dict(base, cin=Fr(cin), cout=Fr(cout), groups=Fr(g), k0=Fr(k0), k1=Fr(k1))
+            if kind == 'conv1d':
+                e['o3'] = Fr(1)
+            out.append(('%s-%s' % (tag, '%dx%d' % (k0, k1) if kind == 'conv2d' else str(k0)), e))
+    for tag, e in list(out):                      # the analog DIANA precision pair and a low-precision point as well
+        if tag.endswith('3x3') or tag.endswith('-3') or tag.endswith('1x1') or tag.endswith('-1'):
+            out.append((tag + '-w2', dict(e, wp=Fr(2))))
+    return out
+
+
+def call_lookup(torch, sname, kind, env, rep):
+    """look the layer up in the spec and evaluate what comes back -> (value | None, exception | None, function | None)"""
+    import torch.nn as nn
+    import plinio.cost as pc
+    ltype = {'conv1d': nn.Conv1d, 'conv2d': nn.Conv2d, 'linear': nn.Linear}[kind]
+    P = Fn()
+    P.kind = kind
+    try:
+        d = mk_spec(torch, P, env, rep)
+        fn = getattr(pc, sname)[(ltype, d)]
+    except Exception as ex:
+        return None, type(ex).__name__, None
+    try:
+        v = fn(d)
+    except Exception as ex:
+        return None, type(ex).__name__, fn
+    return float(v), None, fn
 
 
 def supported(F, e):
@@ -190,18 +241,15 @@ def load_fns(torch, res, notes):
         for ltype, lst in cs.data.items():
             for constr, fn in lst:
                 lname = ltype.__name__
-                if constr is None:
-                    pname = lname + 'Generic'
-                elif constr is pat.conv_dw_constraint:
-                    pname = lname + 'DW'
-                else:
-                    pname = lname + ':' + getattr(constr, '__name__', 'constraint')
+                # the name plinio.cost.pattern itself gives to this (layer type, constraint) pair
+                named = [k for k, v in vars(pat).items() if isinstance(v, tuple) and len(v) == 2 and v[0] is ltype and v[1] is constr]
+                pname = named[0] if named else lname + ':' + getattr(constr, '__name__', 'unconstrained' if constr is None else 'constraint')
                 live_tables[sname][1].append((pname, fn.__name__))
                 F = Fn()
                 F.spec, F.pattern, F.fn, F.py_name = sname, pname, fn, fn.__name__
                 F.id = '%s/%s' % (sname, pname)
                 F.kind = lname.lower()
-                F.dw = pname.endswith('DW')
+                F.dw = constr is pat.conv_dw_constraint
                 cn = cost2coq.coq_name(sname, fn.__name__)
                 F.cn = cn
                 if cn in res['functions']:
@@ -216,6 +264,8 @@ def load_fns(torch, res, notes):
 
 
 # ----------------------------------------------------------------------------- grids
+# non-integer bit-widths (0.5, 2.5, 4.75, 8.875, just below / above 8): dyadic so that float32, float64 and Q agree exactly
+FRACTIONAL_BITS = [Fraction(1, 2), Fraction(5, 2), Fraction(19, 4), Fraction(71, 8), 8 - Fraction(1, 2048), 8 + Fraction(1, 4096)]
 BOUNDARY_CH = [0, 1, 2, 3, 4, 5, 7, 8, 9, 15, 16, 17, 31, 32, 33, 47, 48, 49, 63, 64, 65, 95, 96, 97, 127, 128, 129, 130]
 
 
@@ -269,7 +319,7 @@ def sweeps_for(F, quick):
     """yields (base index, swept variable, [env, ...] in increasing order of the variable)"""
     ks = [Fraction(x) for x in (1, 3, 5, 7)]
     os_ = [Fraction(x) for x in range(1, 34)]
-    bits = [Fraction(x) for x in (0, 1, 2, 3, 4, 6, 8, 16)]
+    bits = sorted([Fraction(x) for x in (0, 1, 2, 3, 4, 6, 8, 16)] + FRACTIONAL_BITS)
     for bi, b in enumerate(bases_for(F, quick)):
         chs = ch_values(quick, dense=(bi == 0 or not quick), frac=(bi <= 1 or not quick))   # quick: every channel count through the first base point, tile boundaries +-1 through the others
 
@@ -539,7 +589,7 @@ def run(ctx):
                         'float64 evaluation of the implementation: integer/dyadic results compared with =, MPIC / DIANA-analog within 2^-40, MPIC energy (float32 constant) within 2^-20']
     ctx.rule = ('every registered function of every spec in plinio.cost x base points (3 quick / 10 thorough) x one-dimensional sweeps: channels 0..130 (quick: through the first base point, multiples of 16 +-1 through the others) + {255..257, 511..513} + quarter-step '
                 'fractions (around tile boundaries quick / all thorough), kernel entries {1,3,5,7} (each and jointly), output sizes 1..33, bits {0,1,2,3,4,6,8,16} for weights and activations, '
-                'bias on/off, theta, groups; plus every function on integer-sized layers (base points, channel counts around tile sizes, one unsupported precision) described with plain ints, plain floats, float32 tensors and vars() of a real nn module + real forward shapes; one case = one call of a cost function (or STE helper); non-trivial = returns a cost > 0 or rejects; distinct by (function, arguments)')
+                'bias on/off, theta, groups; plus every function on integer-sized layers (base points, channel counts around tile sizes, one unsupported precision) described with plain ints, plain floats, float32 tensors and vars() of a real nn module + real forward shapes; non-integer bit-widths (0.5, 2.5, 4.75, 8.875, 8 -+ eps) as tensors and floats; every spec looked up (spec[(type, layer)](layer)) on dense / grouped / depthwise / one-to-one layers x kernels 1, 3, 5, mixed; one case = one call of a cost function (or STE helper); non-trivial = returns a cost > 0 or rejects; distinct by (function, arguments)')
 
     notes = ctx.notes
     fns, live_tables = load_fns(torch, res, notes)
@@ -573,7 +623,7 @@ def run(ctx):
     # float32 tensors, vars() of a real module + the shapes of a real forward (static layers, full_cost=True)
     for F in fns:
         for e in static_envs(F, quick):
-            for rep in REPS:
+            for rep in reps_for(e):
                 v, exc = call(torch, F, e, rep)
                 cases.append((F, e, v, exc, rep))
                 ctx.case((F.idx, envkey(e), rep), nontrivial=(exc is not None) or (v is not None and v > 0), kind='rep:%s:%s' % (rep, 'reject' if exc else 'value'),
@@ -584,12 +634,44 @@ def run(ctx):
                     report('raises-on-valid-layer:%s:%s' % (F.id, 'float32-tensors' if rep == 'f32' else 'static-description'), F, dict(info, exception=exc),
                            '%s raised %s on the valid layer %s described with %s' % (F.id, exc, jenv(e), REP_TEXT[rep]))
                 elif exc is None and sup is False:
-                    report('accepts-unsupported-precision:%s:%s' % (F.id, rep), F, dict(info, value=v),
+                    report('accepts-unsupported-precision:%s' % F.id, F, dict(info, value=v),
                            '%s returned %r for the unsupported precision %s described with %s' % (F.id, v, jenv(e), REP_TEXT[rep]))
                 elif exc is None:
                     if not (math.isfinite(v) and v >= 0 and (v > 0 or e['wp'] < 2 or e['ip'] < 2)):
                         report('not-finite-nonneg-positive:%s:%s' % (F.id, rep), F, dict(info, value=repr(v)),
                                '%s returned %r for the non-empty layer %s described with %s' % (F.id, v, jenv(e), REP_TEXT[rep]))
+    # every spec LOOKED UP (pattern + constraint resolution included) on layers at the intersections of the constraint
+    # families: a valid layer of a kind the spec registers must get a finite non-negative cost, not an exception
+    import plinio.cost as pc_
+    for sname in ALL_SPECS:
+        cs = getattr(pc_, sname, None)
+        if cs is None:
+            continue
+        for kind in sorted({t.__name__.lower() for t in cs.data}):
+            for tag, e in lookup_layers(kind):
+                if tag.endswith('-w2') and sname != 'diana_latency':      # the 2-bit variants only matter where the precision selects the accelerator
+                    continue
+                P = Fn()
+                P.spec, P.kind, P.dw = sname, kind, (kind != 'linear' and e['cin'] == e['cout'] == e['groups'])
+                P.id, P.pattern, P.py_name = '%s[%s]' % (sname, kind), 'lookup', 'lookup'
+                sup = supported(P, e)
+                for rep in ('f64', 'module'):
+                    v, exc, fn = call_lookup(torch, sname, kind, e, rep)
+                    Ff = [F for F in fns if fn is not None and F.fn is fn and F.spec == sname]
+                    if Ff:
+                        cases.append((Ff[0], e, v, exc, rep))
+                    ctx.case(('lookup', sname, kind, envkey(e), rep), nontrivial=True, kind='lookup:%s:%s' % (kind, 'reject' if exc else 'value'),
+                             sample={'spec': sname, 'layer': kind + ':' + tag, 'representation': rep, 'env': jenv(e), 'impl': v if exc is None else 'EXC:' + exc} if (tag == 'depthwise-1x1' and sname == 'gap8_latency') else None)
+                    info = {'lookup': True, 'spec_name': sname, 'kind': kind, 'layer': tag, 'env': jenv(e), 'representation': rep}
+                    if exc is not None and sup is True:
+                        report('lookup-raises-on-valid-layer:%s:%s:%s' % (sname, kind, tag), None, dict(info, exception=exc),
+                               '%s[(%s, layer)](layer) raised %s for the valid %s layer %s (%s)' % (sname, kind, exc, tag, jenv(e), REP_TEXT[rep]))
+                    elif exc is None and sup is False:
+                        report('lookup-accepts-unsupported:%s:%s:%s' % (sname, kind, tag), None, dict(info, value=v),
+                               '%s[(%s, layer)](layer) returned %r for the unsupported %s layer %s' % (sname, kind, v, tag, jenv(e)))
+                    elif exc is None and not (math.isfinite(v) and v >= 0 and (v > 0 or fn is getattr(cs, 'default', None))):
+                        report('lookup-not-finite-nonneg-positive:%s:%s:%s' % (sname, kind, tag), None, dict(info, value=repr(v)),
+                               '%s[(%s, layer)](layer) returned %r for the non-empty %s layer %s' % (sname, kind, v, tag, jenv(e)))
     # depthwise = generic per group (hardware-independent specs)
     byid = {F.id: F for F in fns}
     for sname in cost2coq.HW_INDEPENDENT:
@@ -712,6 +794,15 @@ def replay(r):
     torch = _torch()
     c = r.get('case', {})
     c = c.get('case', c) if 'fn' not in c and 'helper' not in c else c
+    if c.get('lookup'):
+        e = {k: Fraction(v) for k, v in c['env'].items()}
+        v, exc, fn = call_lookup(torch, c['spec_name'], c['kind'], e, c.get('representation', 'f64'))
+        print('replayed %s[(%s, layer)](layer) on the %s layer %s (%s) -> %s' % (c['spec_name'], c['kind'], c['layer'], c['env'], REP_TEXT[c.get('representation', 'f64')], v if exc is None else 'raises ' + exc))
+        if r.get('key', '').startswith('lookup-accepts-unsupported'):
+            print('required: rejected (an exception)')
+            return 0 if exc is not None else 1
+        print('required: a finite non-negative cost (positive for a registered pattern), no exception')
+        return 0 if exc is None and math.isfinite(v) and v >= 0 else 1
     if 'fn' not in c:
         print('no implementation input in this replay file (obligation / correspondence record, or helper case)')
         return 1
